@@ -97,7 +97,9 @@ def verify_root(trusted_current_root_metadata, untrusted_new_root_metadata):
     trusted_root_version = trusted_current_root_metadata["signed"]["version"]
     untrusted_root_version = untrusted_new_root_metadata["signed"]["version"]
 
-    if trusted_root_version + 1 != untrusted_root_version:
+    # Exact integer arithmetic: versions may be integral floats, and float
+    # addition stops being exact at 2**53 (x + 1 == x).
+    if int(trusted_root_version) + 1 != untrusted_root_version:
         # TODO ✅: Create a suitable error class for this.
         raise MetadataVerificationError(
             "Root chaining failure: we currently trust a version of root "
